@@ -70,6 +70,7 @@ func (e *Engine) resetFunc(key string) {
 	e.usedGhostFuncs = map[string]bool{}
 	e.inputs = nil
 	e.retCovers = 0
+	e.typedOnce = nil
 	e.closures = map[string]Val{}
 }
 
@@ -236,6 +237,7 @@ func (e *Engine) checkPost(st *State, res []Val, pos interface{}) {
 	}
 	env := e.contractEnv(st, fc, fr.fn.Signature, fr.params)
 	env.old = fr.oldHeaps
+	env.fr = fr // snap variables recorded by atcall hooks are visible in postconditions
 	bindResults(env, fc, res)
 	for _, en := range fc.Ensures {
 		t, err := e.evalBool(st, env, en.Expr)
